@@ -108,12 +108,20 @@ def binop(eng, op, a, b):
         return eng.call(a.attrs[_DUNDER[op]], [b], {})
     if isinstance(a, PArr) or isinstance(b, PArr):
         # element-wise numpy arithmetic at the arbitrary index
-        diag = a.diag if isinstance(a, PArr) else b.diag
+        src = a if isinstance(a, PArr) else b
+        xa = a.e if isinstance(a, PArr) else None
+        xb = b.e if isinstance(b, PArr) else None
+        if op in ('BitAnd', 'BitOr') and xa is not None and xb is not None and z3.is_bool(xa) and z3.is_bool(xb):
+            return src.like(z3.And(xa, xb) if op == 'BitAnd' else z3.Or(xa, xb))          # boolean masks
+        if op == 'Mult' and xb is not None and z3.is_bool(xb):
+            return src.like(z3.If(xb, _real(eng.num(a)), z3.RealVal(0)))                  # array * mask
+        if op == 'Mult' and xa is not None and z3.is_bool(xa):
+            return src.like(z3.If(xa, _real(eng.num(b)), z3.RealVal(0)))
         x, y = _real(eng.num(a)), _real(eng.num(b))
         if op == 'Pow':
-            return PArr(eng.uf('pow_', [TReal, TReal], TReal)(x, y), diag)
+            return src.like(eng.uf('pow_', [TReal, TReal], TReal)(x, y))
         r = binop(eng, op, SV(TReal, x), SV(TReal, y))
-        return PArr(_real(eng.num(r)), diag)
+        return src.like(_real(eng.num(r)))
     if isinstance(a, (str, tuple)) and isinstance(b, type(a)) and op == 'Add':
         return a + b
     if isinstance(a, str) and op == 'Mod':
@@ -306,7 +314,7 @@ def inplace(eng, op, box, rhs):
 def compare(eng, op, a, b):
     if (isinstance(a, PArr) or isinstance(b, PArr)) and op in ('Lt', 'LtE', 'Gt', 'GtE'):
         x, y = _real(eng.num(a)), _real(eng.num(b))
-        return PArr({'Lt': x < y, 'LtE': x <= y, 'Gt': x > y, 'GtE': x >= y}[op])      # a mask
+        return (a if isinstance(a, PArr) else b).like({'Lt': x < y, 'LtE': x <= y, 'Gt': x > y, 'GtE': x >= y}[op])      # a mask
     if op == 'Eq':
         return eng.eq(a, b)
     if op == 'NotEq':
@@ -565,6 +573,9 @@ def norm_index(eng, i, n, exc=True):
 
 
 def getitem(eng, v, k):
+    if isinstance(v, PArr) and isinstance(k, tuple):
+        e = v.at(*[_int(eng.num(x)) for x in k])                 # arr[a, b]: the pointwise formula at that index
+        return wrap(TBool if z3.is_bool(e) else TReal, e)
     if isinstance(v, (tuple, ConcreteList, str)):
         kk = eng.num(k)
         if isinstance(kk, int):
@@ -1713,6 +1724,10 @@ def sym_str_method(eng, name, s, args, kw):
         return str_split(eng, e, args, kw)
     if name == 'format':
         return SV(TStr, eng.fresh(TStr, 'fmt'))
+    if name == 'join' and len(args) == 1 and not isinstance(args[0], str) and type_of(args[0]) != TStr:
+        # sep.join(sequence): some string (the text of messages is not modelled; non-string items would raise TypeError in
+        # Python, which is not modelled either)
+        return SV(TStr, eng.fresh(TStr, 'joined'))
     if name == 'find':
         return SV(TInt, z3.IndexOf(e, to_z3(args[0], TStr), 0))
     if name in ('strip', 'lstrip', 'rstrip', 'lower', 'upper', 'join', 'replace', 'rjust', 'ljust', 'title',
@@ -2032,6 +2047,7 @@ def install(eng):
               'NotImplementedError', 'RuntimeError', 'FileNotFoundError', 'BaseException']:
         B[n] = ExcClass(n)
     M = eng.methods
+    M[('PArr', 'round')] = lambda e, a, n=0: a.like(e.uf('round_', [TReal, TInt], TReal)(a.e, _int(e.num(n))))
     M[('list', 'append')] = list_append
     M[('list', 'extend')] = list_extend
     M[('list', 'pop')] = list_pop
@@ -2089,12 +2105,12 @@ def install(eng):
     def np_exp(e, x):
         f = e.uf('exp_', [TReal], TReal)
         if isinstance(x, PArr):
-            return PArr(f(x.e), x.diag)
+            return x.like(f(x.e))
         return wrap(TReal, f(_real(e.num(x))))
 
     def np_abs(e, x):
         if isinstance(x, PArr):
-            return PArr(z3.If(x.e >= 0, x.e, -x.e), x.diag)
+            return x.like(z3.If(x.e >= 0, x.e, -x.e))
         v = e.num(x)
         if isinstance(v, (int, float)):
             return abs(v)
